@@ -239,6 +239,11 @@ def walk_graph(ctx, impl, nodes, edges, inits, label, sharded=False):
       if size != nd['sz']:
         ctx.violation(f'{lab}: size() = {size}, specification {nd["sz"]}', case,
                       {'call': 'size', 'predicate': 'size'})
+      # size() is a function of the state it is given: the SOURCE state still has its own size after a newer state exists
+      size_src = impl.size(rep[s])
+      if size_src != nodes[s]['sz']:
+        ctx.violation(f'after {lab}: size() of the earlier state = {size_src}, specification {nodes[s]["sz"]}', case,
+                      {'call': 'size', 'predicate': 'size_of_earlier_state'})
       # implementation-level comparison: localisation + licence for edge coverage
       it = impl.internals(snap)
       if sharded:
@@ -407,6 +412,52 @@ def random_traces(ctx, r, ntraces, length, configs):
                       {'call': 'history', 'predicate': 'trace_rejected'})
 
 
+def foreign_dtype(ctx):
+  """Records whose dtype differs from the queue's storage: the insert is either refused (and the queue keeps working) or
+  accepted FAITHFULLY - what is sampled later is exactly what was inserted.  Silent rounding is neither."""
+  jax, jnp, rb = _jax()
+  cases = [('int32 storage, float32 records', jnp.int32, np.array([0.5, 1.5, 2.5], np.float32), np.array([4, 5, 6], np.int32)),
+           ('float32 storage, int32 records above 2^24', jnp.float32, np.array([16777217, 16777219, 33554433], np.int32),
+            np.array([4.0, 5.0, 6.0], np.float32)),
+           ('float16 storage, float32 records', jnp.float16, np.array([0.1, 2049.0, 70000.0], np.float32),
+            np.array([4.0, 5.0, 6.0], np.float16))]
+  n = 0
+  for what, sdt, foreign, native in cases:
+    for kind in ('queue', 'cyclic', 'uniform'):
+      dummy = {'id': jnp.zeros((), sdt)}
+      buf = rb.UniformSamplingQueue(6, dummy, 3) if kind == 'uniform' else rb.Queue(6, dummy, 3, cyclic=(kind == 'cyclic'))
+      case = {'what': what, 'queue': kind, 'foreign_records': foreign.tolist()}
+      n += 1
+      ctx.traces += 1
+      ctx.case(key=('foreign', what, kind), nontrivial=True)
+      try:
+        st = buf.init(jax.random.PRNGKey(0))
+        try:
+          st2 = buf.insert(st, {'id': jnp.asarray(foreign)})
+          accepted = True
+        except Exception:  # pylint: disable=broad-except
+          accepted, st2 = False, st
+        if accepted:
+          _, batch = buf.sample(st2)
+          got = np.asarray(batch['id']).astype(np.float64)
+          if not set(got.tolist()) <= set(foreign.astype(np.float64).tolist()):
+            ctx.violation(f'{kind} queue, {what}: the insert was accepted but sampling returns {got.tolist()}, which were never '
+                          f'inserted ({foreign.tolist()})', case, {'call': 'insert', 'predicate': 'unfaithful_dtype'})
+            continue
+        else:
+          # refused: the queue must still take and return native records
+          st3 = buf.insert(st2, {'id': jnp.asarray(native)})
+          _, batch = buf.sample(st3)
+          got = np.asarray(batch['id']).astype(np.float64)
+          want = native.astype(np.float64).tolist()
+          if (kind == 'uniform' and not set(got.tolist()) <= set(want)) or (kind != 'uniform' and got.tolist() != want):
+            ctx.violation(f'{kind} queue, {what}: after a refused insert the queue returns {got.tolist()} for {native.tolist()}',
+                          case, {'call': 'insert', 'predicate': 'refusal_side_effect'})
+      except Exception as e:  # pylint: disable=broad-except
+        ctx.violation(f'{kind} queue, {what}: {type(e).__name__}: {str(e)[:200]}', case, {'call': 'insert', 'predicate': 'raised'})
+  ctx.extra['foreign_dtype_cases'] = n
+
+
 # ---------------------------------------------------------------- entry points
 
 
@@ -435,6 +486,7 @@ def run(ctx):
     nedges += model_and_walk(ctx, cap, batch, False, 'uniform', depth - 1)
     closure(ctx, cap, batch, False, 'uniform')
   k3_counterexample(ctx)
+  foreign_dtype(ctx)
   shard_cfgs = [(2, 1, False, 'pmap', 2), (2, 2, True, 'pjit', 2), (3, 2, False, 'pjit', 2), (2, 2, False, 'pjity', 2)] if quick else \
       [(c, b, cy, w, n) for c in (1, 2, 3) for b in (1, 2) for cy in (False, True)
        for w, n in (('pmap', 2), ('pjit', 2), ('pjit', 3), ('pmap', 4), ('pjit', 4), ('pjity', 2))]
